@@ -43,8 +43,9 @@ Inductive tpc :=
 | TPurge     (* holds sendBufferMu; next: the purge loop *)
 | TUnlock    (* next: sendBufferMu.Unlock() (deferred in the repaired code) *)
 | TInvoke    (* next: call the callback with ErrAckTimeout *)
+| TRunning   (* the user callback (ErrAckTimeout) is executing: it may take arbitrarily long *)
 | TSkipped   (* saw called = true: returned without calling *)
-| TFired     (* callback invoked with ErrAckTimeout *)
+| TFired     (* the callback invoked with ErrAckTimeout has returned *)
 | TPanicked. (* pre-fix purge only: panic recovered by the goroutine, sendBufferMu still locked *)
 
 (** a goroutine running onPacket for one received ACK packet *)
@@ -52,6 +53,7 @@ Inductive rpc :=
 | RLookup (id : nat) (a : args)   (* next: acksMu.Lock; look up + delete; Unlock; decode *)
 | RCall (id : nat) (a : args)     (* holds the handler; next: h.call: lock, timedOut?, called = true *)
 | RInvoke (id : nat) (a : args)   (* next: invoke the callback with the reply *)
+| RRunning (id : nat) (a : args)  (* the user callback (reply) is executing: it may take arbitrarily long *)
 | RDone.
 
 Definition frame := (option nat * (nat * nat))%type.
@@ -88,7 +90,8 @@ Record state := mkState {
   st_wire : list frame;           (* frames handed to manager.packet / conn.sendBuffers, in order *)
   st_replies : list rpc;
   st_inflight : list (nat * args);(* ACK packets sent by the peer, not yet received *)
-  st_log : list (nat * outcome);  (* invocations of user ack callbacks, in order *)
+  st_log : list (nat * outcome);  (* invocations of user ack callbacks, in order of their START; a
+                                     callback that is still executing is a goroutine at RRunning / TRunning *)
   st_plog : list (nat * args);    (* peer: calls of the ack function of the event carrying id *)
   st_psent : list (nat * args)    (* peer: ACK packets it put on the wire *)
 }.
@@ -242,7 +245,8 @@ Definition step (l : label) (s : state) : option state :=
               end
             else Some (put_emit (with_buf s (purge_new id (st_buf s))) id (set_timer e TUnlock))
         | TUnlock => Some (put_emit (with_bufmu s None) id (set_timer e TInvoke))
-        | TInvoke => Some (put_emit (with_log s (st_log s ++ [(id, OTimeout)])) id (set_timer e TFired))
+        | TInvoke => Some (put_emit (with_log s (st_log s ++ [(id, OTimeout)])) id (set_timer e TRunning))
+        | TRunning => Some (put_emit s id (set_timer e TFired))   (* the callback returns *)
         | _ => None
         end
       | None => None
@@ -283,7 +287,8 @@ Definition step (l : label) (s : state) : option state :=
           | None => Some (put_reply s k RDone)
           end
       | Some (RInvoke id a) =>
-          Some (put_reply (with_log s (st_log s ++ [(id, OReply a)])) k RDone)
+          Some (put_reply (with_log s (st_log s ++ [(id, OReply a)])) k (RRunning id a))
+      | Some (RRunning id a) => Some (put_reply s k RDone)          (* the callback returns *)
       | _ => None
       end
   | LConnect =>
